@@ -56,8 +56,8 @@ def gen_case(rng, nops):
 
 
 # ---------------------------------------------------------------- publish stream (media.GetOrCreate)
-def py_canon(p):
-    """utils.CanonicalPath (ASCII): TrimSpace, ToLower, leading '/', path.Clean, trailing '/' kept"""
+def py_canon_once(p):
+    """the body of utils.CanonicalPath (ASCII): TrimSpace, ToLower, leading '/', path.Clean, trailing '/' kept"""
     p = p.strip(" \t\n\v\f\r").lower()
     if p == "":
         return "/"
@@ -76,6 +76,14 @@ def py_canon(p):
     if p[-1] == "/" and np != "/":
         np += "/"
     return np
+
+def py_canon(p):
+    """utils.CanonicalPath since fix 1c2de2b: the body repeated until nothing changes"""
+    while True:
+        np = py_canon_once(p)
+        if np == p:
+            return np
+        p = np
 
 def py_stable(p):
     return py_canon(py_canon(p)) == py_canon(p)
@@ -111,6 +119,9 @@ def respell(rng, cp):
             q = rng.choice([" ", "  ", "\t"]) + q
         if rng.random() < 0.2:
             q = q + rng.choice([" ", "\t ", "  "])
+        if rng.random() < 0.08 and not cp.endswith("/"):
+            # a blank left at the end by resolving "..": one pass of the old CanonicalPath body is not enough
+            q = q.rstrip(" \t") + rng.choice([" /x/..", "  /in/../", " /./a/.."])
         if py_canon(q) == cp and py_stable(q):
             return q
     return cp
@@ -190,13 +201,13 @@ def publish_nontrivial(c):
     return any(o[0] == 0 for o in c[1]) and any(o[0] == 4 and py_canon(o[1]) != o[1] for o in c[1])
 
 def publish_sig(c, e, o):
-    if any(op[0] == 4 and not py_stable(op[1]) for op in c[1]):
-        return "publish-request-canon-unstable"
+    if any(op[0] == 4 and py_canon_once(py_canon_once(op[1])) != py_canon_once(op[1]) for op in c[1]):
+        return "publish-request-canon-unstable"      # fixed in /repo (1c2de2b); a reappearance is reported under this name
     return "publish-history"
 
 def unstable_witnesses(rng):
-    """known finding: a request whose CanonicalPath is not a fixed point is looked up in the registry under
-    one key and published under another, so the same request pulls again"""
+    """regression for the repaired defect (1c2de2b): with the one-pass CanonicalPath a request like "/a /b/.." was
+    looked up in the registry under "/a " and published under "/a", so the same request pulled again"""
     out = []
     for seg in ["a", "cam", "x1"]:
         q = "/%s /b/.." % seg
@@ -221,7 +232,7 @@ def run(ck):
     pcases = [gen_publish_case(rng, rng.randint(3, 30 if ck.thorough else 12)) for _ in range(npub)]
     ck.stream("publish", pcases, "C17_publish_run", "C17_publish", "C17_publish_ok",
               nontrivial=publish_nontrivial, sig=publish_sig)
-    ck.stream("publish_unstable_witness", unstable_witnesses(rng), "C17_publish_run", "C17_publish", "C17_publish_ok",
+    ck.stream("publish_canon_regression", unstable_witnesses(rng), "C17_publish_run", "C17_publish", "C17_publish_ok",
               nontrivial=lambda c: True, sig=publish_sig)
     # the string model against Go directly
     alpha = "aB/. "
@@ -243,11 +254,10 @@ def run(ck):
              "prefixes and failing hosts, and the real RTSP factory against a loopback fake camera (DESCRIBE URL observed); "
              "requests are respellings (upper case, no leading '/', '//', '/./', '/x/../', blanks, trailing '/') of route patterns + "
              "remainders and of live stream paths, often asked twice in two spellings; non-trivial = a route and a non-canonically spelt request; "
-             "publish_unstable_witness: the known finding replayed; "
+             "publish_canon_regression: the repaired defect (one-pass CanonicalPath) replayed; "
              "plus CanonicalPath vs the Gallina model on strings over {a,B,/,.,space}",
         trusted=["url.Parse is an oracle (generator emits only URLs it accepts); route URL non-empty (guard op_wf)",
                  "whether a factory's Create succeeds is external (f_ok): the loopback fake camera cam.test answers, dead.test refuses; "
                  "symbolic hosts are mapped to loopback addresses by the harness",
                  "the recording wrapper around the real RTSP factory only records arguments and results"],
-        assumptions=["ASCII paths", "route URL non-empty (an empty URL makes Match index URL[-1]; modelled as Panic, excluded by op_wf)",
-                     "GetOrCreate theorems: CanonicalPath(request) is a fixed point of CanonicalPath (guard req_stable; known finding publish-request-canon-unstable)"])
+        assumptions=["ASCII paths", "route URL non-empty (an empty URL makes Match index URL[-1]; modelled as Panic, excluded by op_wf)"])
